@@ -96,6 +96,21 @@ static void* M___dynamic_cast(void* obj, void* src, void* dst, uint64_t hint) {
   return 0;
 }
 #endif
+/* threads: the GC timer thread is never run (its only effect, raising the request flag, is modelled by the harness);
+ * join() sets a ghost flag so that "the thread is stopped when a run ends" can be asserted */
+static int ir2c_thread_started, ir2c_thread_joined;
+static void M__ZNSt18condition_variableC1Ev(void* cv) { (void)cv; }
+static void M__ZNSt18condition_variableD1Ev(void* cv) { (void)cv; }
+static void M__ZNSt18condition_variable10notify_allEv(void* cv) { (void)cv; }
+static void M__ZNSt18condition_variable10notify_oneEv(void* cv) { (void)cv; }
+static void M__ZNSt6thread4joinEv(void* t) { ir2c_thread_joined++; *(uint64_t*)t = 0; }
+static void M__ZNSt6thread15_M_start_threadESt10unique_ptrINS_6_StateESt14default_deleteIS1_EEPFvvE(void* t, void* state, void* fn) {
+  (void)state; (void)fn; ir2c_thread_started++; *(uint64_t*)t = 1;   /* non-zero id: joinable */
+}
+static uint32_t M_pthread_mutex_lock(void* m) { (void)m; return 0; }
+static uint32_t M_pthread_mutex_unlock(void* m) { (void)m; return 0; }
+static uint32_t M___pthread_key_create(void* k, void* d) { (void)k; (void)d; return 0; }
+
 /* <cctype> in the "C" locale */
 static uint32_t M_isspace(uint32_t c) { return c == ' ' || (c >= 9 && c <= 13); }
 static uint32_t M_isdigit(uint32_t c) { return c >= '0' && c <= '9'; }
